@@ -103,3 +103,73 @@ func vsplitCmd(par int) int {
 	fmt.Printf("%d of %d corpus files parse differently under different versions; written to corpus/vsplit.json\n", len(list), len(files))
 	return 0
 }
+
+// cliclean: workload material, computed once and committed (corpus/clean.json):
+// the corpus files on which the pinned command-line program ends normally when
+// it processes the file alone with every output flag set, under the default
+// version and under 5.6. The pinned program crashes on a file whose parse
+// yields no tree, and a crash ends the whole program, so a run of scenario C is
+// only fully judged when every file is of this kind; the generator draws half
+// of the scenario-C runs (and the many-files flavour) from this list. Only a
+// hint: on a tree that behaves differently the runs are merely less pointed.
+func clicleanCmd(par int) int {
+	b, err := buildSimnode("cliclean")
+	defer b.cleanup()
+	if err != nil {
+		fmt.Println(err)
+		return 2
+	}
+	vd := verifDir()
+	corp, err := loadCorpus(filepath.Join(vd, "corpus"))
+	if err != nil {
+		fmt.Println(err)
+		return 2
+	}
+	dir := filepath.Join(b.scratch, "cliclean")
+	os.MkdirAll(dir, 0755)
+	var files []corpusFile
+	for _, f := range corp.all {
+		if len(f.src) <= 8192 && len(f.src) > 0 && !f.bad {
+			files = append(files, f)
+		}
+	}
+	ok := make([]bool, len(files))
+	var wg sync.WaitGroup
+	sem := make(chan struct{}, par)
+	for i := range files {
+		i := i
+		wg.Add(1)
+		sem <- struct{}{}
+		go func() {
+			defer wg.Done()
+			defer func() { <-sem }()
+			good := true
+			for vi, ver := range []string{"", "5.6"} {
+				s := &scn.Scenario{Prop: "C11", Kind: "C", RunSeed: uint64(i), Workers: 1, CLIFlags: []string{"-pb", "-d", "-r", "-e", "-p"}}
+				if ver != "" {
+					s.CLIFlags = append(s.CLIFlags, "-phpver", ver)
+				}
+				s.Inputs = []scn.Input{{Name: files[i].name, Src: append([]byte(nil), files[i].src...), Callback: true, Path: "fa0.php"}}
+				r := b.execRun(dir, 2*i+vi, s, execOpts{noIso: true})
+				if r.res == nil || r.infra != "" || len(r.res.Violations) > 0 || r.res.Probes["cli_abnormal_end_alone"] > 0 || r.res.Probes["cli_budget_abort"] > 0 {
+					good = false
+				}
+			}
+			ok[i] = good
+		}()
+	}
+	wg.Wait()
+	var list []string
+	for i, f := range files {
+		if ok[i] {
+			list = append(list, f.name)
+		}
+	}
+	raw, _ := json.MarshalIndent(list, "", " ")
+	if err := os.WriteFile(filepath.Join(vd, "corpus", "clean.json"), raw, 0644); err != nil {
+		fmt.Println(err)
+		return 2
+	}
+	fmt.Printf("on %d of %d well-formed corpus files the command-line program ends normally with every output flag set; written to corpus/clean.json\n", len(list), len(files))
+	return 0
+}
